@@ -61,10 +61,12 @@ def build_spec(h: int, r: int, forms: list[int], counts: list[int], order: list[
         if kind == "r":
             n = counts[i % len(counts)] if counts else 1
             parts.append(["nt", f"p{i}"])
-            rules.append([f"p{i}", ["seq", [["nt", f"n{i}"], ["crep", ["nt", f"x{i}"], f"int(<n{i}>)"]]]])
-            rules.append([f"n{i}", ["alt", [["lit", "1"], ["lit", "2"], ["lit", "3"]]]])
+            body = ["seq", [["nt", f"n{i}"], ["crep", ["nt", f"x{i}"], f"int(<n{i}>)"]]]
+            # n == 4 stands for "this record takes the alternative without the repetition"
+            rules.append([f"p{i}", ["alt", [body, ["lit", "-"]]]])
+            rules.append([f"n{i}", ["alt", [["lit", "0"], ["lit", "1"], ["lit", "2"], ["lit", "3"]]]])
             rules.append([f"x{i}", ["alt", [["lit", "a"], ["lit", "b"]]]])
-            word += str(n) + "ab"[i % 2] * n
+            word += "-" if n == 4 else str(n) + "ab"[i % 2] * n
         else:
             parts.append(["nt", f"t{i}"])
             rules.append([f"t{i}", ["alt", [["lit", "z"], ["lit", "y"]]]])
@@ -126,6 +128,38 @@ def check_case(case: dict[str, Any], ctx: Any = None) -> list[str]:
             msgs.append(f"h={h} r={r}: fuzz raised {type(e).__name__}: {e}")
         if len(sols) < k:
             msgs.append(f"h={h} r={r}: fuzz(desired_solutions={k}) on an always-solvable spec returned {len(sols)} solutions")
+        # run level: whatever the evaluator reports as a solution (first sighting of a satisfying tree) must reach
+        # the caller - small node budgets make repair and refill work near their limits
+        f2 = S.load(spec)
+        seen_by_evaluator: list[str] = []
+        orig = Evaluator.evaluate_individual
+
+        def wrapped(self: Any, individual: Any) -> Any:
+            gen = orig(self, individual)
+            try:
+                while True:
+                    t = next(gen)
+                    seen_by_evaluator.append(str(t))
+                    yield t
+            except StopIteration as stop:
+                return stop.value
+
+        Evaluator.evaluate_individual = wrapped  # type: ignore[method-assign]
+        delivered: list[str] = []
+        try:
+            try:
+                f2.fuzz(desired_solutions=10**6, max_generations=4, population_size=8, random_seed=case["run"],
+                        max_nodes=4 + case["run"] % 9, solution_callback=lambda t, i: delivered.append(str(t)))
+            except Exception:
+                pass
+        finally:
+            Evaluator.evaluate_individual = orig  # type: ignore[method-assign]
+        lost = [s_ for s_ in seen_by_evaluator if s_ not in delivered]
+        if lost:
+            msgs.append(f"h={h} r={r}: {len(lost)} tree(s) the evaluator reported as solutions never reached the caller, e.g. {lost[0]!r} "
+                        f"(delivered {len(delivered)}, max_nodes={4 + case['run'] % 9})")
+        if ctx is not None:
+            ctx.count("run_level_solutions", len(seen_by_evaluator))
     if ctx is not None:
         ctx.case(text, h >= 1 and r >= 1 and h + r >= 3, (f"h={h}", f"r={r}"),
                  sample={"h": h, "r": r, "word": word, "constraints": spec["constraints"][:3], "fitness": fitness})
@@ -147,9 +181,9 @@ def run_shard(ctx: Any) -> None:
 def _run_pair(ctx: Any, h: int, r: int, reps: int) -> None:
     if True:
         @given(forms=st.lists(st.integers(0, 7), min_size=1, max_size=6),
-               counts=st.lists(st.integers(1, 3), min_size=1, max_size=5),
+               counts=st.lists(st.integers(0, 4), min_size=1, max_size=5),
                order=st.lists(st.integers(0, 30), min_size=1, max_size=8),
-               run=st.sampled_from([0, 0, 0, 7, 11]))
+               run=st.sampled_from([0, 0, 7, 11, 23, 40]))
         def test(forms: list[int], counts: list[int], order: list[int], run: int) -> None:
             case = {"h": h, "r": r, "forms": forms, "counts": counts, "order": order,
                     "run": run if (h + r) <= 6 else 0}
@@ -164,7 +198,7 @@ def _run_big(ctx: Any) -> None:
     if True:
         @given(h=st.integers(0, 40), r=st.integers(0, 40),
                forms=st.lists(st.integers(0, 7), min_size=1, max_size=6),
-               counts=st.lists(st.integers(1, 3), min_size=1, max_size=5),
+               counts=st.lists(st.integers(0, 4), min_size=1, max_size=5),
                order=st.lists(st.integers(0, 30), min_size=1, max_size=8))
         def test_big(h: int, r: int, forms: list[int], counts: list[int], order: list[int]) -> None:
             if h + r == 0:
